@@ -27,6 +27,7 @@ opened by the previous directive.
     %wrap N `anchor`              two text blocks separated by a line '---': inserted before / after the anchor tokens
     %truncate N `e as T`          shorthand: wrap the cast in #[verifier::truncate] ( ... )
     %nocanary                     do not emit the reachability canary for this function
+    %shared                       trait method declaration whose contract is included (identically) by several units
   %endfn
   %extern PATH                    external_body declaration using PATH's %spec from its home unit
   %raw                            verbatim Verus text (lemmas, spec fns) pasted at this position
@@ -64,6 +65,7 @@ class FnSpec:
     loops: dict = field(default_factory=dict)     # n -> (iter_name, text)
     hints: list = field(default_factory=list)
     nocanary: bool = False
+    shared: bool = False
     src: str = ""
     line: int = 0
 
@@ -232,6 +234,9 @@ def parse_unit(path):
             cur_fn.props = arg.split()
         elif d == "%nocanary":
             cur_fn.nocanary = True
+        elif d == "%shared":
+            # a trait method declaration whose contract is included by several units (same text)
+            cur_fn.shared = True
         elif d == "%spec":
             def add(l, f=cur_fn):
                 f.spec += l + "\n"
@@ -292,6 +297,8 @@ def load_all(contracts_dir):
         for e in u.entries:
             if e[0] == "fn":
                 if e[1].path in fnspecs:
+                    if e[1].shared and fnspecs[e[1].path].shared and fnspecs[e[1].path].spec == e[1].spec:
+                        continue
                     raise SpecError(f"function {e[1].path} has two home units")
                 fnspecs[e[1].path] = e[1]
     import copy
